@@ -3,6 +3,7 @@ CONSTANTS
   WorkerCpus <- S1_Workers
   WorkerGroup <- S1_Groups
   Menu <- S1_Menu
+  OpenJobs <- S1_Open
   Classes <- S1_Classes
   MaxLosses = 2
   MaxCancels = 2
@@ -21,10 +22,9 @@ INVARIANTS
   C01_JobAgrees
   C02_Registry
   C02_ClosedJobsComplete
-  C03_NeverStartedAfterFailedDep
-  C03_PropagateAtRest
+  C03_NeverStartedAfterFailedDepModLate
+  C03_PropagateAtRestModLate
   C03_Unaffected
-  C03_DepsCounted
   C04_RunningExclusive
   C04_RunningExact
   C05_NoOverbookModHandover
